@@ -301,3 +301,121 @@ Proof.
       unfold sfan in Hf. cbv zeta in Hf. lsimpl_in Hf. split_or Hf; subst f; reflexivity. }
   rewrite sphere_nverts by lia. rewrite sphere_nfaces by lia. nia.
 Qed.
+
+(* ------------------------------------------------------------------ vertex umbrellas *)
+Require Import MV.C14.ProofsFan.
+
+Lemma sphere_links n L v x y : 1 <= n -> 0 <= L ->
+  In (x, y) (links (sphere_uv_faces n L) v) <->
+  (exists i, 0 <= i < L /\ let i' := (i + 1) mod L in
+     ((v = rv L 0 i /\ x = 0 /\ y = rv L 0 i') \/ (v = 0 /\ x = rv L 0 i' /\ y = rv L 0 i) \/ (v = rv L 0 i' /\ x = rv L 0 i /\ y = 0)) \/
+     ((v = n * L + 1 /\ x = rv L (n - 1) i /\ y = rv L (n - 1) i') \/ (v = rv L (n - 1) i /\ x = rv L (n - 1) i' /\ y = n * L + 1)
+      \/ (v = rv L (n - 1) i' /\ x = n * L + 1 /\ y = rv L (n - 1) i)))
+  \/ (exists j i, 0 <= j < n - 1 /\ 0 <= i < L /\ let i' := (i + 1) mod L in
+     let a := rv L j i in let b := rv L j i' in let c := rv L (j + 1) i' in let d := rv L (j + 1) i in
+     (v = a /\ x = b /\ y = d) \/ (v = b /\ x = c /\ y = a) \/ (v = c /\ x = d /\ y = b) \/ (v = d /\ x = a /\ y = c)).
+Proof.
+  intros Hn HL. rewrite links_In. split.
+  - intros [f [Hf H]]. apply sphere_face_In in Hf as [[i [Hi Hf]]|[j [i [Hj [Hi Hf]]]]]; try lia.
+    + left. exists i. split; auto. cbv zeta. unfold sfan in Hf. cbv zeta in Hf. cbn [In] in Hf. split_or Hf; subst f;
+        [left | right]; apply tri_corner; exact H.
+    + right. exists j, i. split; auto. split; auto. cbv zeta. unfold squad in Hf. cbv zeta in Hf. cbn [In] in Hf.
+      split_or Hf. subst f. apply quad_corner. exact H.
+  - intros [[i [Hi H]]|[j [i [Hj [Hi H]]]]]; cbv zeta in H.
+    + destruct H as [H|H].
+      * exists [rv L 0 i; 0; rv L 0 ((i + 1) mod L)]. split; [|apply tri_corner; exact H].
+        apply sphere_face_In; try lia. left. exists i. split; auto. unfold sfan. cbv zeta. left. reflexivity.
+      * exists [n * L + 1; rv L (n - 1) i; rv L (n - 1) ((i + 1) mod L)]. split; [|apply tri_corner; exact H].
+        apply sphere_face_In; try lia. left. exists i. split; auto. unfold sfan. cbv zeta. right. left. reflexivity.
+    + eexists. split; [|apply quad_corner; exact H].
+      apply sphere_face_In; try lia. right. exists j, i. split; auto. split; auto. unfold squad. cbv zeta. left. reflexivity.
+Qed.
+
+Lemma pr_cases n i : 0 <= i < n -> (pr n i = i - 1 /\ 0 < i) \/ (pr n i = n - 1 /\ i = 0).
+Proof. unfold pr. destruct (i =? 0) eqn:E; lia. Qed.
+
+(* turn an equation between two ring vertices  a*L + 1 + b = c*L + 1 + d  into  a = c /\ b = d *)
+Ltac rv_eq E :=
+  match type of E with
+  | ?a * ?L + 1 + ?b = ?c * ?L + 1 + ?d =>
+      let E' := fresh "E" in assert (E' : a * L + b = c * L + d) by lia;
+      apply rowmajor_inj in E'; [|lia|lia]; destruct E'
+  end.
+
+Ltac sph_fan_wit L k :=
+  left; exists k; split; [lia|]; cbv zeta;
+  let E := fresh "E" in let Lt := fresh "L" in
+  destruct (mod_succ_cases k L ltac:(lia)) as [[E Lt]|[E Lt]]; rewrite ?E; unfold rv;
+  first [exfalso; lia | pick_disj ltac:(repeat split; lia)].
+Ltac sph_quad_wit L j k :=
+  right; exists j, k; split; [lia|]; split; [lia|]; cbv zeta;
+  let E := fresh "E" in let Lt := fresh "L" in
+  destruct (mod_succ_cases k L ltac:(lia)) as [[E Lt]|[E Lt]]; rewrite ?E; unfold rv;
+  first [exfalso; lia | pick_disj ltac:(repeat split; lia)].
+Ltac sph_wits L r i0 :=
+  first [ sph_fan_wit L i0 | sph_fan_wit L (i0 - 1) | sph_fan_wit L (L - 1)
+        | sph_quad_wit L r i0 | sph_quad_wit L r (i0 - 1) | sph_quad_wit L r (L - 1)
+        | sph_quad_wit L (r - 1) i0 | sph_quad_wit L (r - 1) (i0 - 1) | sph_quad_wit L (r - 1) (L - 1) ].
+
+Definition sphere_ring (n L r i0 : Z) : list (Z * Z) :=
+  let ni := (i0 + 1) mod L in let pi := pr L i0 in
+  let dn := if r =? n - 1 then n * L + 1 else rv L (r + 1) i0 in
+  let up := if r =? 0 then 0 else rv L (r - 1) i0 in
+  [(rv L r ni, dn); (dn, rv L r pi); (rv L r pi, up); (up, rv L r ni)].
+
+Lemma sphere_vertex_manifold n L : 1 <= n -> 3 <= L -> vertex_manifold (sphere_uv_nverts n L) (sphere_uv_faces n L).
+Proof.
+  intros Hn HL. rewrite sphere_nverts by lia. intros v Hv.
+  assert (HnL : 0 <= (n - 1) * L) by (apply Z.mul_nonneg_nonneg; lia).
+  destruct (Z.eq_dec v 0) as [->|N0]; [|destruct (Z.eq_dec v (n * L + 1)) as [->|NS]].
+  - (* north pole: the L triangles of the fan, in order *)
+    apply (one_fan_intro _ _ (map (fun t => (rv L 0 ((L - 1 - t + 1) mod L), rv L 0 (L - 1 - t))) (zrange L)));
+      [apply sphere_oriented_manifold; auto | | |].
+    + apply NoDup_map_inj_in; [|apply NoDup_zrange]. intros a b Ha Hb E. apply In_zrange in Ha, Hb. pinj E. unfold rv in *. lia.
+    + intros [x y]. rewrite sphere_links, in_map_iff by lia. split.
+      * intros [t [E Ht]]. apply In_zrange in Ht. pinj E. left. exists (L - 1 - t). split; [lia|]. cbv zeta. left. right. left. lia.
+      * intros [[i [Hi H]]|[j [i [Hj [Hi H]]]]]; cbv zeta in H;
+          pose proof (Z.mod_pos_bound (i + 1) L ltac:(lia)); unfold rv in H.
+        -- split_or H; destruct H as [E1 [-> ->]]; try lia.
+           exists (L - 1 - i). split; [|apply In_zrange; lia]. replace (L - 1 - (L - 1 - i)) with i by lia. reflexivity.
+        -- assert (0 <= j * L) by (apply Z.mul_nonneg_nonneg; lia). split_or H; destruct H as [E1 [-> ->]]; lia.
+    + apply chained_map_zrange. cbn [fst snd]. intros t Ht.
+      replace (L - 1 - (t + 1) + 1) with (L - 1 - t) by lia. rewrite Z.mod_small by lia. reflexivity.
+  - (* south pole *)
+    apply (one_fan_intro _ _ (map (fun k => (rv L (n - 1) k, rv L (n - 1) ((k + 1) mod L))) (zrange L)));
+      [apply sphere_oriented_manifold; auto | | |].
+    + apply NoDup_map_inj_in; [|apply NoDup_zrange]. intros a b Ha Hb E. apply In_zrange in Ha, Hb. pinj E. unfold rv in *. lia.
+    + intros [x y]. rewrite sphere_links, in_map_iff by lia. split.
+      * intros [k [E Hk]]. apply In_zrange in Hk. pinj E. left. exists k. split; [lia|]. cbv zeta. right. left. lia.
+      * intros [[i [Hi H]]|[j [i [Hj [Hi H]]]]]; cbv zeta in H;
+          pose proof (Z.mod_pos_bound (i + 1) L ltac:(lia)); unfold rv in H.
+        -- split_or H; destruct H as [E1 [-> ->]]; try lia.
+           exists i. split; [reflexivity | apply In_zrange; lia].
+        -- assert ((j + 1) * L <= (n - 1) * L) by (apply Z.mul_le_mono_nonneg_r; lia).
+           assert (0 <= j * L) by (apply Z.mul_nonneg_nonneg; lia).
+           split_or H; destruct H as [E1 [-> ->]]; lia.
+    + apply chained_map_zrange. cbn [fst snd]. intros t Ht. rewrite Z.mod_small by lia. reflexivity.
+  - (* a ring vertex (r, i0): four corners *)
+    set (r := (v - 1) / L). set (i0 := (v - 1) mod L).
+    assert (Hri : v = rv L r i0 /\ 0 <= i0 < L /\ 0 <= r < n).
+    { subst r i0. pose proof (Z.div_mod (v - 1) L ltac:(lia)). pose proof (Z.mod_pos_bound (v - 1) L ltac:(lia)).
+      unfold rv. split; [lia|]. split; [lia|]. split; [apply Z.div_pos; lia | apply Z.div_lt_upper_bound; nia]. }
+    destruct Hri as [Ev [Hi0 Hr]]. clearbody r i0. subst v.
+    assert (B1 : 0 <= r * L) by (apply Z.mul_nonneg_nonneg; lia).
+    assert (B2 : r * L <= (n - 1) * L) by (apply Z.mul_le_mono_nonneg_r; lia).
+    apply (one_fan_intro _ _ (sphere_ring n L r i0)); [apply sphere_oriented_manifold; auto | | |];
+      unfold sphere_ring; cbv zeta;
+      destruct (mod_succ_cases i0 L Hi0) as [[Ei Li]|[Ei Li]]; rewrite Ei;
+      destruct (pr_cases L i0 Hi0) as [[Pi Qi]|[Pi Qi]]; rewrite Pi; try lia;
+      destruct (r =? n - 1) eqn:R1; destruct (r =? 0) eqn:R0.
+    1-12: unfold rv; repeat constructor; cbn [In]; intros Hin; split_or Hin; pinj Hin; lia.
+    1-12: intros [x y]; rewrite sphere_links by lia; split;
+      [ intros H; cbn [In] in H; split_or H; pinj H; subst x y; sph_wits L r i0
+      | intros [[i [Hi H]]|[j [i [Hj [Hi H]]]]]; cbv zeta in H;
+        [ | assert (0 <= j * L) by (apply Z.mul_nonneg_nonneg; lia);
+            assert ((j + 1) * L <= (n - 1) * L) by (apply Z.mul_le_mono_nonneg_r; lia) ];
+        destruct (mod_succ_cases i L Hi) as [[E L']|[E L']]; rewrite E in H; unfold rv in *;
+        split_or H; destruct H as [E1 [-> ->]]; try lia; rv_eq E1; subst; cbn [In];
+        first [lia | pick_disj ltac:(f_equal; lia)] ].
+    1-12: unfold rv; cbn [chained fst snd]; repeat split; lia.
+Qed.
